@@ -467,6 +467,23 @@ def discharge_all(obligations, budget=10, workers=None, deadline_s=None):
         list(pool.map(lambda p: guarded(p[0], p[1]), zip(proofs, prepared)))
         for f in futs:
             f.result()
+    # second pass: an obligation left undecided by a solver timeout is retried with 3x the budget on a quarter of the workers, so that
+    # a busy machine (all cores taken by other checks) does not turn a proof into UNDECIDED; deadline-skipped ones are retried too while time remains
+    retry = [(ob, pr) for ob, pr in zip(proofs, prepared) if ob.status == 'undecided' and pr is not None]
+    if retry and len(retry) <= 400:
+        hard = (deadline_s or 600) * 2
+
+        def again(p):
+            ob, pr = p
+            if time.time() - t0 > hard:
+                return ob
+            first = ob.time_s
+            discharge_one(ob, budget * 3, pr)
+            ob.time_s += first
+            ob.meta = dict(getattr(ob, 'meta', None) or {}, retried=True)
+            return ob
+        with ThreadPoolExecutor(max_workers=max(2, workers // 4)) as pool:
+            list(pool.map(again, retry))
     return time.time() - t0
 
 
